@@ -226,14 +226,14 @@ theorem c15_structure_3d (bad : K) (divide : Bool) (ai i1 i2 : List Nat) (vis w 
       obtain ⟨orow, hor, hs⟩ := hp2 f vr wr hv hw
       exact ⟨orow, by simp [get2, hot, hor], hs⟩
 
-/-- **c15_kernel_partial**: the kernel as coded equals the documented kernel
+/-- **c15_kernel**: the kernel as coded equals the documented kernel
     (`w / (a₁·a₂)` when dividing, `w·a₁·a₂` when multiplying back, `bad·w` substituted where an
-    autocorrelation is zero or not finite) for every input outside the known-finding family
-    `infFamily` (dividing by an autocorrelation of ±inf whose partner is neither zero nor NaN). -/
-theorem c15_kernel_partial (bad : K) (divide : Bool) (a1 a2 w : Scalar K)
-    (h : infFamily divide a1 a2 = false) :
+    autocorrelation is zero or not finite) for every input: finite, zero, NaN, ±inf.
+    (Before the repair of C15-inf-autocorr in /repo this held only outside the family "dividing by an
+    autocorrelation of ±inf whose partner is neither zero nor NaN".) -/
+theorem c15_kernel (bad : K) (divide : Bool) (a1 a2 w : Scalar K) :
     kernelImpl bad divide a1 a2 w = kernelSpec bad divide a1 a2 w :=
-  kernelImpl_eq_spec bad divide a1 a2 w h
+  kernelImpl_eq_spec bad divide a1 a2 w
 
 /-- the documented kernel, spelled out on finite values -/
 theorem c15_kernel_documented (bad x y z : K) :
@@ -254,18 +254,15 @@ theorem c15_spec_row (bad : K) (divide : Bool) (cps : List (α × α)) (visRe wR
         visRe[p1]? = some a1 ∧ visRe[p2]? = some a2 ∧ out[b]? = some (kernelSpec bad divide a1 a2 w) :=
   weightsRowSpec_get bad divide cps visRe wRow out h
 
-/-- **c15_row_partial**: code = documentation on a whole sample.  When no autocorrelation product
-    is listed twice, every element of `weight_power_scale`'s output equals the documented value
-    unless its two autocorrelations fall in the known-finding family `infFamily`. -/
-theorem c15_row_partial (bad : K) (divide : Bool) (cps : List (α × α)) (ai i1 i2 : List Nat)
+/-- **c15_row**: code = documentation on a whole sample.  When no autocorrelation product
+    is listed twice, every element of `weight_power_scale`'s output equals the documented value. -/
+theorem c15_row (bad : K) (divide : Bool) (cps : List (α × α)) (ai i1 i2 : List Nat)
     (visRe wRow out sout : List (Scalar K)) (hc : corrprodToAutocorr cps = .ok (ai, i1, i2))
     (hB : visRe.length = cps.length) (hW : wRow.length = cps.length)
     (hnd : ∀ (p q : Nat) (a : α), cps[p]? = some (a, a) → cps[q]? = some (a, a) → p = q)
     (ho : scaleRow bad divide ai i1 i2 visRe wRow = .ok out)
     (hs : weightsRowSpec bad divide cps visRe wRow = .ok sout)
-    (b : Nat) (x y : α) (hb : cps[b]? = some (x, y))
-    (hfam : ∀ (p1 p2 : Nat) (a1 a2 : Scalar K), cps[p1]? = some (x, x) → cps[p2]? = some (y, y) →
-      visRe[p1]? = some a1 → visRe[p2]? = some a2 → infFamily divide a1 a2 = false) :
+    (b : Nat) (x y : α) (hb : cps[b]? = some (x, y)) :
     out[b]? = sout[b]? := by
   obtain ⟨out', ho', _, hst⟩ := c15_structure bad divide cps ai i1 i2 visRe wRow hc hB hW
   rw [ho] at ho'
@@ -279,24 +276,16 @@ theorem c15_row_partial (bad : K) (divide : Bool) (cps : List (α × α)) (ai i1
   rw [v1] at u1
   rw [v2] at u2
   cases u1; cases u2
-  rw [hout, hsout, kernelImpl_eq_spec bad divide a1 a2 w (hfam p1 p2 a1 a2 c1 c2 v1 v2)]
+  rw [hout, hsout, kernelImpl_eq_spec bad divide a1 a2 w]
 
 end wps
 
-/-- the full statement (kernel as coded = documented kernel on *all* inputs) is false: an
-    autocorrelation of +inf gives weight 0, not the tiny positive substitute -/
-theorem c15_kernel_full_is_false :
-    ¬ ∀ (a1 a2 w : Scalar Rat), kernelImpl badWeightRat true a1 a2 w = kernelSpec badWeightRat true a1 a2 w := by
-  intro h
-  have := h .posInf (.val 1) (.val 1)
-  revert this
-  decide +kernel
-
 example : kernelImpl badWeightRat true (.val 2) (.val 4) (.val 3) = .val (3 / 8) := by decide +kernel
 example : kernelImpl badWeightRat true (.val 0) (.val 4) (.val 3) = .val (3 / 4294967296) := by decide +kernel
-example : kernelImpl badWeightRat true .posInf (.val 4) (.val 3) = .val 0 := by decide +kernel
+example : kernelImpl badWeightRat true .posInf (.val 4) (.val 3) = .val (3 / 4294967296) := by decide +kernel
+example : kernelImpl badWeightRat true (.val 4) .negInf (.val 3) = .val (3 / 4294967296) := by decide +kernel
+example : kernelImpl badWeightRat false (.val 0) (.val 4) (.val 3) = .val 0 := by decide +kernel
 example : kernelSpec badWeightRat true .posInf (.val 4) (.val 3) = .val (3 / 4294967296) := by decide +kernel
-example : infFamily true (.posInf : Scalar Rat) (.val 4) = true := by decide +kernel
 example : ∃ out, scaleRow badWeightRat true [1, 2] [1, 0, 1, 0] [0, 0, 1, 1]
     [.val 5, .val 2, .val 4, .val 7] [.val 3, .val 3, .val 3, .val 3] = .ok out ∧
     out = [.val (3 / 8), .val (3 / 4), .val (3 / 16), .val (3 / 8)] := ⟨_, by decide +kernel, rfl⟩
